@@ -28,6 +28,9 @@ CLAIMED = {
  'C06': ("value-set cuts over the closed verdict enum at every signing site, data-dependence based nil-error cuts before every success site, pairing rules for signature/SUCCEEDED in services and handlers, summaries of the pre-check helpers, error-mapping cuts in the rules' fetch helpers and the store",
          "Decides that a signature is produced only where the rules verdict of the request's own position is APPROVED, that SUCCEEDED+signature is reachable only past the nil-error edge of every call the signature depends on, that signature and SUCCEEDED are written together (service and handler, position by position), that rules run only after lookup, permission check and unlock succeeded, and that fetch/decode/store failures cannot turn into 'nothing signed yet' or APPROVED.",
          "Not decided: behaviour when a dependency panics instead of returning an error; third-party signers. ", "§5 C06"),
+ 'C07': ("per-clause must-pass-through cuts inside the permission checker (scoped to the current entry / item by starting the cut at the loop body), abstract-string evaluation of every compiled pattern, authorise-before-act cuts over all client-facing service entry points with helper summaries, string-taint analysis of the checked name, action/rule/data-type consistency table",
+         "Decides that Check answers 'allowed' only past [credentials present], [client known], [both patterns match the names split from the account under test], [this item is not a deny], [this item allows], scanning entries and items forward and in full, and refuses inside the scan only on a deny item; that every compiled pattern has the shape (?i)^(?:pattern)$; that every action of the 11 client-facing service entry points lies below a positive check of the resolved wallet/account name (create: the requested name) under the operation constant its rules run with.",
+         "Not decided: regexp semantics; the order in which main turns the YAML map into the entry list (Go map iteration; the property is decided for the list the checker service holds). ", "§5 C07"),
  'C15': ("typestate dataflow over the gate (PreLock/Lock*/PostLock), mutex pairing dataflow inside the locker, reachability in the module call graph (no re-entry below the dispatch)",
          "Decides that key locks are only requested inside the locker-wide gate, the gate is released on every path, nothing inside the gate or below the dispatch can re-enter the locker, the locker's own creation mutex is paired on every path and released before waiting for a key, and every acquired key is released by defer. These exclude every wait-for cycle (prose argument in DESIGN.md §5 C15).",
          "Not decided: termination of badger operations and third-party signers while locks are held.", "§5 C15"),
